@@ -468,6 +468,42 @@ fn cli_conformance(ctx: &Ctx) {
     use crate::cli::{keyring_text, Cmd, Exit, Ident, Stdin, WorkDir};
     let mut rng = Rng::fork(ctx.seed, "C06-cli");
     let wd = WorkDir::new("c06");
+    // the repository's two frozen fixtures through the shipped tool: to stdout, to a fresh -o path and
+    // to a -o path that already holds longer content
+    {
+        let want = std::fs::read("/repo/src/cli/tests/data.txt").unwrap_or_default();
+        let tests = "/repo/src/cli/tests";
+        for (fx, args, pw) in [
+            ("pdata.txt.ktl", vec!["password", "decrypt", "/repo/src/cli/tests/pdata.txt.ktl", "--env-pass"], "pass123"),
+            ("data.txt.ktl", vec!["decrypt", "/repo/src/cli/tests/data.txt.ktl", "-t", "bob", "-k", "/repo/src/cli/tests/keyring.txt", "--env-pass"], "bob"),
+        ] {
+            let _ = tests;
+            for sink in ["stdout", "fresh -o path", "-o path holding longer content"] {
+                let outp = wd.file(&format!("fx-{}-{}.out", fx, sink.len()));
+                let _ = std::fs::remove_file(&outp);
+                let mut a: Vec<&str> = args.clone();
+                let os = outp.to_str().unwrap().to_string();
+                if sink != "stdout" {
+                    a.push("-o");
+                    a.push(&os);
+                }
+                if sink.ends_with("longer content") {
+                    std::fs::write(&outp, vec![0x33u8; want.len() + 4096]).unwrap();
+                }
+                let o = Cmd::new(&wd.path, &a).pass(pw).run();
+                ctx.eval();
+                let got = if sink == "stdout" { o.stdout.clone() } else { std::fs::read(&outp).unwrap_or_default() };
+                if o.exit == Exit::Code(0) && got == want && !want.is_empty() {
+                    ctx.seen("cli decrypts the repository fixture to exactly its plaintext");
+                    ctx.distinct(&format!("cli|fixture|{}|{}", fx, sink));
+                } else if o.exit == Exit::Timeout {
+                    ctx.inconclusive("C06 cli: timeout");
+                } else {
+                    ctx.violation("C06:cli:repository-fixture-not-decrypted-to-exactly-its-plaintext", json!({"fixture": fx, "sink": sink, "exit": o.exit.describe(), "stderr": o.stderr_s(), "got_len": got.len(), "want_len": want.len()}));
+                }
+            }
+        }
+    }
     let pws: Vec<String> = vec!["plain".into(), "trailing space ".into(), " leading".into(), "tab\t".into(), "nl\n".into(), "ideographic\u{3000}".into(), "".into(), "  ".into(), "p\u{e4}ss".into()];
     let wdp = &wd;
     let pt = rng.bytes(65536 + 321);
@@ -536,6 +572,33 @@ fn cli_conformance(ctx: &Ctx) {
             }
             _ => ctx.violation("C06:cli:tool-made-password-file-does-not-conform", case("password encrypt, decoded by the specification under the exact password", &o)),
         }
+        // (b2) the FILE the tool leaves at -o, fresh path and a path that already holds longer content:
+        // exactly header || chunks, nothing else
+        for (prior_what, prior) in [("fresh path", None), ("path holding longer content", Some(vec![0x5au8; pt.len() + 100_000])), ("path holding shorter content", Some(vec![1u8; 7]))] {
+            let outp = wdp.file(&format!("made{}-{}.ktl", i, prior_what.len()));
+            let _ = std::fs::remove_file(&outp);
+            if let Some(p) = &prior {
+                std::fs::write(&outp, p).unwrap();
+            }
+            let pin = wdp.write(&format!("in{}.bin", i), &pt);
+            let o = Cmd::new(&wdp.path, &["password", "encrypt", pin.to_str().unwrap(), "-o", outp.to_str().unwrap(), "--env-pass"]).pass(w).run();
+            ctx.eval();
+            let f = std::fs::read(&outp).unwrap_or_default();
+            match refspec::decode_pass_file(&f, w.as_bytes()) {
+                Ok(d) if o.exit == Exit::Code(0) && d.body.complete() && d.body.plaintext() == pt && f.len() == 36 + 32 * d.body.chunks.len() + pt.len() => {
+                    ctx.seen(&format!("file left at -o conforms exactly ({})", prior_what));
+                    ctx.distinct(&format!("cli|file-at-o|{}|{}", i, prior_what));
+                }
+                _ if o.exit == Exit::Timeout => ctx.inconclusive("C06 cli: timeout"),
+                r => {
+                    let mut v = case("password encrypt -o FILE, the file decoded by the specification", &o);
+                    v["prior_content"] = json!(prior_what);
+                    v["file_len"] = json!(f.len());
+                    v["reference"] = json!(match r { Ok(d) => format!("{:?}", d.body.end), Err(e) => e.to_string() });
+                    ctx.violation("C06:cli:file-left-at-the-output-path-does-not-conform", v);
+                }
+            }
+        }
         // (c) specification-locked key in a keyring -> the tool unlocks it, signs as it, decrypts to it
         let kr = keyring_text(&[(&ids[i], true), (&peer, true)]);
         wdp.write(&format!("kr{}.txt", i), kr.as_bytes());
@@ -597,6 +660,8 @@ pub fn run(ctx: &Ctx) {
     ctx.require("specification decrypts a tool-made password file", 6);
     ctx.require("cli unlocks a specification-locked key", 6);
     ctx.require("cli decrypts a short-chunk", 12);
+    ctx.require("file left at -o conforms exactly (path holding longer content)", 6);
+    ctx.require("cli decrypts the repository fixture", 4);
     ctx.require("encryptor==spec key mode", 20);
     ctx.require("encryptor==spec password mode", 10);
     ctx.require("decryptor accepts spec-made", 40);
